@@ -21,6 +21,10 @@ from .values import Agg, B, CEnum, Cell, I, Opaque, Ptr, clone_value, unit
 NANOS = 1_000_000_000
 
 
+class ModelPanic(Exception):
+    """A scripted handler panic: the executor model stops the current run and reports ExecutorError::Panic."""
+
+
 def ref(v, tag="tmp"):
     return Ptr(Cell(v, tag=tag), (), "ref")
 
@@ -147,8 +151,15 @@ class SimWorld:
                 while rest:
                     k = it.choose(len(rest), "task-order")
                     order.append(rest.pop(k))
-            for i in order:
-                w.run_future(pending[i])
+            try:
+                for i in order:
+                    w.run_future(pending[i])
+            except ModelPanic:
+                # the single-threaded executor stops at the first panic; tasks not yet run stay unexecuted
+                it.event("run-end")
+                mid = Agg("ModelId", [I(0, "usize")])
+                payload = it.alloc(Opaque("Payload", is_send_error=False), tag="payload", kind="box")
+                return err(Agg("ExecutorError", [mid, payload], variant="Panic"))
             # futures spawned while running (none in this world) would be handled here
             if w.spawned:
                 raise Unsupported("future spawned during run")
@@ -197,6 +208,11 @@ class SimWorld:
             "<Pin as Future>::poll": pin_poll,
             "<LeafFut as Future>::poll": pin_poll,
             "<KeyedLeafFut as Future>::poll": pin_poll,
+            "<Payload as Any>::type_id": lambda it, cal, args: Opaque("TypeId", send_error=bool(deref_all(it, args[0]).data.get("is_send_error"))),
+            "TypeId::of": lambda it, cal, args: Opaque("TypeId", send_error=("SendError" in cal.raw)),
+            "<TypeId as PartialEq>::eq": lambda it, cal, args: B(deref_all(it, args[0]).data == deref_all(it, args[1]).data),
+            "<TypeId as PartialEq>::ne": lambda it, cal, args: B(deref_all(it, args[0]).data != deref_all(it, args[1]).data),
+            "<TestObserver as ChannelObserver>::len": lambda it, cal, args: deref_all(it, args[0]).data["len"],
             "Poll::is_ready": lambda it, cal, args: B(deref_all(it, args[0]).variant == "Ready"),
             "Poll::is_pending": lambda it, cal, args: B(deref_all(it, args[0]).variant == "Pending"),
         })
